@@ -15,7 +15,7 @@ func init() {
 	core.Register(&core.Prop{
 		ID:    "C19",
 		Level: "exploration",
-		Rule: "EXHAUSTIVE quadruples (object-left, object-right, tag-left, tag-right) of distinct, mutually non-prefixing strings of length 1..2 over the alphabet {<, >, $} (quick) / {<, >, [, ], $, @} (thorough), PRNG quadruples of length 1..4 over a 14-symbol punctuation alphabet with the regexp metacharacters ( ) * + ? . ^ \\ | ], and each of the 16 subsets of positions left empty. For each quadruple, generated templates (objects, tags, blocks, loops, hyphens on every side, raw/comment, multi-line tags, planted errors) are re-spelled with the custom delimiters via the frozen reference tokenizer and rendered on Engine.Delims(q); the result must equal the original on a default engine (bytes, or failure with the same LineNumber). A case is judged only if the re-spelled source tokenises under q into the same tokens. The default delimiter strings must pass through as text under q. Non-trivial = the quadruple differs from the defaults; distinct = distinct (quadruple, template).",
+		Rule: "EXHAUSTIVE quadruples (object-left, object-right, tag-left, tag-right) of distinct, mutually non-prefixing strings of length 1..2 over the alphabet {<, >, $} (quick) / {<, >, [, ], $, @} (thorough), PRNG quadruples of length 1..4 over a 14-symbol punctuation alphabet with the regexp metacharacters ( ) * + ? . ^ \\ | ], and each of the 16 subsets of positions left empty. For each quadruple, generated templates (objects, tags, blocks, loops, hyphens on every side, raw/comment, multi-line tags, planted errors) are re-spelled with the custom delimiters via the frozen reference tokenizer and rendered on Engine.Delims(q); the result must equal the original on a default engine (bytes, or failure with the same LineNumber). A case is judged only if the re-spelled source tokenises under q into the same tokens. The default delimiter strings must pass through as text under q. Templates in which an application tag expands the objects inside its own argument (render.Context.ExpandTagArg) are re-spelled inside the argument as well and compared the same way (every fifth exhaustive quadruple, every eighth random one, every empty-position subset). Non-trivial = the quadruple differs from the defaults; distinct = distinct (quadruple, template).",
 		Exhaustive: func(string) bool { return true },
 		Assumptions: []string{
 			"the hyphen is excluded from the delimiter alphabet (it would make the whitespace-control marker ambiguous)",
@@ -135,8 +135,79 @@ var c19Fixed = []string{
 	"{{ 'lit' | upcase }}{{ \"dq\" | append: s }}{{ arr | join: ', ' }}{{ arr[0] }}{{ m.a }}",
 }
 
+// c19TagArg: templates in which an application tag expands the objects inside its own argument
+// (render.Context.ExpandTagArg, the Jekyll `{% include {{ page.x }} %}` idiom). «O «o «T «t stand for the delimiters.
+var c19TagArg = []string{
+	"a «T xecho pre-«O n «o-post «t b",
+	"«T xwrap «O- s -«o «t body «O n «o «T endxwrap «t",
+	"x «T- xecho «O s | upcase «o«O n «o -«t y",
+	"«T xecho no object here «t|«T xecho «t|«T xinfo a b «t",
+	"l1\n«T xecho «O 1 | divided_by: 0 «o «t",
+	"l1\n\n«T if t «t\n«T xwrap «O nosuch | nofilter «o «t b «T endxwrap «t«T endif «t",
+	"«T for i in (1..2) «t«T xecho i=«O i «o «O- forloop.index -«o ; «t«T endfor «t",
+	"«T assign v = 'w' «t«T xecho «O v | append: s «o and «O arr | join: '+' «o «t",
+}
+
+func c19Spell(tpl string, q [4]string) string {
+	return strings.NewReplacer("«O", q[0], "«o", q[1], "«T", q[2], "«t", q[3]).Replace(tpl)
+}
+
+// c19SameShape: both spellings tokenise to the same structure, outside and inside the expanding tags' arguments.
+func c19SameShape(a string, qa [4]string, b string, qb [4]string, depth int) bool {
+	ta, tb := ref.Tokens(a, qa), ref.Tokens(b, qb)
+	if len(ta) != len(tb) {
+		return false
+	}
+	for i := range ta {
+		x, y := ta[i], tb[i]
+		if x.Kind != y.Kind || x.Name != y.Name || x.TrimL != y.TrimL || x.TrimR != y.TrimR {
+			return false
+		}
+		switch {
+		case x.Kind == ref.Text:
+			if x.Src != y.Src {
+				return false
+			}
+		case x.Kind == ref.Tag && (x.Name == "xecho" || x.Name == "xwrap") && depth == 0:
+			if !c19SameShape(x.Args, qa, y.Args, qb, 1) {
+				return false
+			}
+		default:
+			if x.Args != y.Args {
+				return false
+			}
+		}
+	}
+	return true
+}
+
 func runC19(c *core.Ctx) {
 	def := liquid.NewEngine()
+	RegisterCustom(def)
+	// ---- objects inside the argument of an application tag ------------------------------------------------
+	tagArg := func(q, engQ [4]string, kind string) {
+		e := liquid.NewEngine().Delims(engQ[0], engQ[1], engQ[2], engQ[3])
+		RegisterCustom(e)
+		b := gen.CanonEnv(gen.StdEnv(core.NewRand(c.Seed, 0xC19)))
+		for _, tpl := range c19TagArg {
+			src, rs := c19Spell(tpl, ref.DefaultDelims), c19Spell(tpl, q)
+			if !c19SameShape(src, ref.DefaultDelims, rs, q, 0) {
+				c.Skip("re-spelled tag argument collides with the delimiters")
+				continue
+			}
+			want, got := core.Run(def, src, b), core.Run(e, rs, b)
+			c.Eval(2)
+			c.Obs("tag_argument_cases", 1)
+			if q != ref.DefaultDelims {
+				c.Distinct(fmt.Sprint(q), src)
+			}
+			same := want.OK() && got.OK() && want.Out == got.Out || want.Failed() && got.Failed() && want.Line == got.Line
+			if !same || got.Panic != "" {
+				c.Violate(kind+"-tag-argument|"+resClass(got), "an object inside the argument of an application tag (ExpandTagArg), written with the custom delimiters, does not render like the default spelling on a default engine",
+					map[string]any{"delims": fmt.Sprintf("%q", engQ), "original": src, "respelled": rs, "default_engine": want.Brief(), "custom_engine": got.Brief()})
+			}
+		}
+	}
 	templates := func(r *core.Rand, k int) (string, gen.Env) {
 		env := gen.StdEnv(r)
 		if k < len(c19Fixed) {
@@ -219,6 +290,9 @@ func runC19(c *core.Ctx) {
 							continue
 						}
 						check(q, q, src, env, "quad")
+						if k == 0 && idx%5 == 0 {
+							tagArg(q, q, "quad")
+						}
 						if idx%30011 == 1 {
 							rs, _ := respell(src, q)
 							c.Sample(map[string]any{"delims": fmt.Sprintf("%q", q), "original": src, "respelled": rs})
@@ -251,6 +325,9 @@ func runC19(c *core.Ctx) {
 		}
 		check(q, q, src, env, "random-quad")
 		c.Obs("random_quads", 1)
+		if i%8 == 0 {
+			tagArg(q, q, "random-quad")
+		}
 	}
 	// ---- subsets of positions left empty ------------------------------------------------------------
 	for i := 0; i < 16*c.Pick(40, 800); i++ {
@@ -277,6 +354,7 @@ func runC19(c *core.Ctx) {
 			continue
 		}
 		check(q, engQ, src, env, fmt.Sprintf("empty-mask%d", mask))
+		tagArg(q, engQ, fmt.Sprintf("empty-mask%d", mask))
 		c.Obs("empty_position_cases", 1)
 	}
 }
